@@ -278,7 +278,7 @@ func (rw *rewriter) text(n ast.Node) string { return string(rw.src[rw.off(n.Pos(
 
 var forbiddenImports = map[string]string{
 	"syscall": "", "os/exec": "", "net": "", "net/http": "", "unsafe": "", "C": "", "os/signal": "",
-	"golang.org/x/sys/unix": "", "runtime": "ok", "sync/atomic": "ok", "context": "ok", "math/rand": "", "crypto/rand": "",
+	"golang.org/x/sys/unix": "", "runtime": "ok", "sync/atomic": "ok", "context": "ok",
 	"math/rand/v2": "", "io/fs": "ok", "embed": "ok",
 }
 
@@ -304,6 +304,10 @@ func (rw *rewriter) rewrite() ([]byte, error) {
 			repl, name = simPath+"/simsync", "sync"
 		case "io/ioutil":
 			repl, name = simPath+"/simioutil", "ioutil"
+		case "math/rand":
+			repl, name = simPath+"/simrand", "rand"
+		case "crypto/rand":
+			repl, name = simPath+"/simcrand", "rand"
 		}
 		if repl != "" {
 			ins := fmt.Sprintf("%q", repl)
